@@ -23,6 +23,7 @@ var (
 	vLog     [32]vLogEntry
 	vNLog    int
 	vPanicAt int // index of the callback invocation that panics (-1: none)
+	vPanicAt2 = -1 // a second panicking invocation (thorough tier)
 	vTokens  map[string]*vTok
 )
 
@@ -36,7 +37,7 @@ func vRecord(e vLogEntry) {
 	idx := vNLog
 	vLog[vNLog] = e
 	vNLog++
-	if idx == vPanicAt {
+	if idx == vPanicAt || idx == vPanicAt2 {
 		panic("lifecycle callback panics (harness)")
 	}
 }
@@ -156,6 +157,13 @@ func vCheckName(name string, pre, post vAbs, s *Supervisor, or *ObjectRegistry) 
 		verifAssert(inhSelf != nil && inhSelf != pre.inst && vKindOf(inhSelf) == post.kind, "inherit-on-new-instance")
 		verifCover("changed")
 	}
+	// an object that is live after the step was not closed during it (also not when its own
+	// init or inherit panicked: the name is still in the snapshot)
+	for i := 0; i < vNLog; i++ {
+		if e := vLog[i]; e.op == opClose && post.present && ((initSelf != nil && e.self == initSelf) || (inhSelf != nil && e.self == inhSelf)) {
+			verifAssert(false, "object-of-a-name-still-in-the-snapshot-is-not-closed")
+		}
+	}
 	// the live set equals the snapshot
 	e1, ok1 := or.entities[name]
 	v2, ok2 := s.businessControllers.Load(name)
@@ -221,6 +229,11 @@ func verifC20_Step() {
 	}
 	config, post := vSnapshot("snap", n)
 	vPanicAt = int(verifInt("panicAt", -1, 3))
+	vPanicAt2 = -1
+	if verifBound("panics") >= 2 && vPanicAt >= 0 {
+		vPanicAt2 = int(verifInt("panicAt2", -1, 4))
+		verifAssume(vPanicAt2 == -1 || vPanicAt2 > vPanicAt)
+	}
 
 	or.applyConfig(config)
 	vDrain(s)
